@@ -632,6 +632,18 @@ def _crop_corner_centered_mask(mask: torch.Tensor, bf_mask_padding_px: int):
     ys, xs = torch.where(mask_c)
 
     px = bf_mask_padding_px
-    y0, y1 = ys.min() - px, ys.max() + px + 1
-    x0, x1 = xs.min() - px, xs.max() + px + 1
-    return torch.fft.ifftshift(mask_c[y0:y1, x0:x1])
+
+    def _symmetric_slice(idx, n):
+        # crop symmetrically about the DC pixel (index n // 2 after fftshift), so that
+        # ifftshift returns it to index 0 and the row-major order of the mask is kept
+        c = n // 2
+        r = int(max(c - idx.min(), idx.max() - c))
+        lim = min(c, n - 1 - c)
+        if r > lim:  # mask reaches the edge of the detector: nothing to crop on this axis
+            return slice(None)
+        r = min(r + px, lim)
+        return slice(c - r, c + r + 1)
+
+    sy = _symmetric_slice(ys, mask_c.shape[0])
+    sx = _symmetric_slice(xs, mask_c.shape[1])
+    return torch.fft.ifftshift(mask_c[sy, sx])
